@@ -12,6 +12,8 @@ package main
 //  U5  edge vertex computed from that edge's corners/values, interpolation is
 //      the symmetric linear zero crossing
 //  U6  explicit degree count over all 2 x 64 neighbouring configuration pairs
+//  U8  the uniform renderer's column cache samples lattice point (x, j) at base + (x, j)∘inc and
+//      the marching loop places the cell corners on the same lattice, axis by axis
 //  U7  uniform and quadtree renderers number corners identically, sample value
 //      k at corner k, iso level 0
 //
@@ -83,6 +85,9 @@ func checkC08(ctx *Ctx, r *Report, tier string) {
 			ev.evalRoot(ufn)
 			isoZeroK(r, ev, "marchingSquares", "msToLines", "U7")
 		}
+		// U8: the column cache samples, and the marching loop draws, on one lattice (rule shared with C06 V6)
+		sampleLattice(ctx, r, "U8", ufn, "newLineCache", "evaluate", "msToLines", 2)
+		r.floor("U8", 2)
 	}
 	if qfn := ctx.ssaFunc("render", "(*dcache2).processSquare"); qfn == nil {
 		r.undecided("U7", "processSquare", 0, "function not found")
@@ -98,7 +103,7 @@ func checkC08(ctx *Ctx, r *Report, tier string) {
 			isoZeroK(r, qev, "processSquare", "msToLines", "U7")
 		}
 	}
-	r.floor("U7", 6)
+	r.floor("U7", 3)
 	if ucm == nil || !validBits(ucm.bits, 2) {
 		return
 	}
@@ -117,7 +122,7 @@ func checkC08(ctx *Ctx, r *Report, tier string) {
 			verifyMSTables(r, pairs, mask, clines, cp, ucm.bits, kf, "verifCtl", cpos, cpos)
 			r.expectControl("U2", "verifCtl")
 		}
-	} else {
+	} else if !r.controlSkipped() {
 		r.undecided("U2", "control-tables", 0, "positive control table missing")
 	}
 	r.floor("U1", 16)
